@@ -135,7 +135,7 @@ P = "playlist/"
 
 
 def c14run(name, fn):
-    return {"name": name, "dir": "pkg/playlist", "files": [P + "c14_roundtrip.go"], "fn": fn, "workers": 16,
+    return {"name": name, "dir": "pkg/playlist", "files": [P + "c14_roundtrip.go", P + "c15_grammar.go"], "fn": fn, "workers": 16,
             "params_quick": {"MAXINT": 99999}, "params_thorough": {"MAXINT": 2147483647}, "reach": ["roundtrip-done"],
             "budget_quick": 900, "budget_thorough": 7200}
 
